@@ -125,6 +125,13 @@ func (ucr *UnsignedChunkReader) Read(p []byte) (int, error) {
 		return 0, err
 	}
 
+	// Read the underlying reader to its end: the layers below (request
+	// signature check) deliver their verdict when they reach the end of
+	// the body, and it must not be lost
+	if _, err := io.Copy(io.Discard, ucr.reader); err != nil {
+		return 0, err
+	}
+
 	return ucr.offset, io.EOF
 }
 
